@@ -233,8 +233,11 @@ class Tracker:
                 return ps
             self.add([S[i]['c'][p] for p in ps], S[i]['isbool'], S[i]['intres'], narrow=S[i]['narrow'])
             return 'ok'
-        if o == 'copy':
-            self.add([self.cell(self.cells[c]) for c in S[i]['c']], S[i]['isbool'], S[i]['intres'])
+        if o in ('copy', 'dcopy'):
+            self.add([self.cell(self.cells[c]) for c in S[i]['c']], S[i]['isbool'], S[i]['intres'],
+                     narrow=(o == 'dcopy' and S[i]['narrow']))
+            if o == 'dcopy' and S[i]['pend'] is not None:
+                S[-1]['pend'] = [self.cell(self.cells[c]) for c in S[i]['pend']]
             return 'ok'
         if o in ('seti', 'setr'):
             k = int(f[2])
@@ -415,6 +418,7 @@ def core_alphabet(g, tr, level):
                         ops.append(f'opq:{i}:add:{j}:1:0')
                         ops.append(f'opq:{i}:{"xor" if g.kind == "i" else "mul"}:{j}:0:0')
             ops.append(f'copy:{i}')
+            ops.append(f'dcopy:{i}')
             ops.append(f'view:{i}:{g.tiny}')
             ops.append(f'get:{i}:{enc_slice(None, None, -1)}')
             ops.append(f'get:{i}:l,-1,0' if n else f'get:{i}:l')
@@ -579,7 +583,7 @@ def random_history(g, rng, depth, bytes_choices, ext=False):
         elif kind == 'view':
             push(f'view:{i}:{rng.choice(bytes_choices)}')
         elif kind == 'copy':
-            push(f'copy:{i}')
+            push(f'copy:{i}' if rng.random() < 0.6 else f'dcopy:{i}')
         elif kind == 'geti':
             push(f'geti:{i}:{rng.randrange(-n - 1, n + 2)}')
         elif kind == 'seti':
@@ -906,9 +910,11 @@ def _check_history(toks, steps, lays, fails, known):
                 else:
                     new_idx = nslots
                     exp[new_idx] = [list(prev[i][p]) for p in ps]
-            elif o == 'copy':
+            elif o in ('copy', 'dcopy'):
                 new_idx = nslots
                 exp[new_idx] = [list(e) for e in prev[i]]
+                if o == 'dcopy' and pend.get(i) is not None:
+                    pend[new_idx] = [list(e) for e in pend[i]]      # deepcopy clones the build cache too
             elif o == 'drop':
                 exp.pop(i, None)
             elif o in ('seti', 'setr', 'set') or (o == 'op' and f[3] == '1'):
@@ -1046,7 +1052,7 @@ def _check_history(toks, steps, lays, fails, known):
                             fails.append(('view_detached_without_growth', k,
                                           f'{tok}: seq {x} and {target} share elements by lineage, not buffers'))
         tr.apply(tok)
-        if res == 'ok' and (o in ('new', 'cat', 'get', 'view', 'copy') or (o == 'op' and f[3] == '0')
+        if res == 'ok' and (o in ('new', 'cat', 'get', 'view', 'copy', 'dcopy') or (o == 'op' and f[3] == '0')
                             or (o == 'opq' and f[4] == '0')):
             nslots += 1
         prev = cur
